@@ -1623,8 +1623,16 @@ func ruleInvokerAssert(c *Ctx, rule string) {
 			good := assertGuarded(ta)
 			if src, ok := isInvField(ta.X); ok && !good {
 				for _, g := range guardEdges(ta.Block()) {
-					fl, ok := isInvField(g.If.Cond)
-					if !ok || !g.Truth || bad[fl.Field] {
+					cond, truth := g.If.Cond, g.Truth
+					for {
+						if u, ok := cond.(*ssa.UnOp); ok && u.Op == token.NOT {
+							cond, truth = u.X, !truth
+							continue
+						}
+						break
+					}
+					fl, ok := isInvField(cond)
+					if !ok || !truth || bad[fl.Field] {
 						continue
 					}
 					if cch := flagFor[fl.Field]; cch != nil && cch.f == src.Field && types.Identical(cch.t, ta.AssertedType) && (fl.X == src.X || exprEq(fl.X, src.X)) {
